@@ -62,37 +62,50 @@ Proof.
   intros Hd Hs. unfold finish. rewrite Hd. destruct sub; [congruence|reflexivity].
 Qed.
 
-(* finalEval of a proxy that has a parent, entered with the tag clear: what the parent sees is res_of true *)
-Lemma final_eval_spec strs p stack log thr room :
+(* finalEval of a proxy that has a parent, entered with the tag clear: the parent resumes with what res_of true says
+   (whatever the reply attributes), or the evaluation is over *)
+Lemma final_eval_spec strs at_ p stack log thr room :
   room <= k_budget K ->
-  exists log' thr' room',
-    final_eval strs (p :: stack) log thr room false =
-      apply_res (snd (fin_spec true strs)) (p :: stack) log' thr' room' false /\
+  exists log' thr' room' at',
+    final_eval strs at_ (p :: stack) log thr room false =
+      match snd (fin_spec true strs) with
+      | SStop o => Done log' o
+      | SVal v =>
+          Running (MState (Frame (f_done p)
+                                 (match v with Some s => AStr s :: tl (f_rest p) | None => tl (f_rest p) end)
+                                 (f_nested p) at' :: stack) log' thr' room' false)
+      end /\
     erase log' = erase log ++ fst (fin_spec true strs) /\
     room <= room' /\ room' <= k_budget K.
 Proof.
   intro Hr. unfold final_eval, fin_spec. destruct strs as [|s strs].
-  - exists log, thr, room. simpl. rewrite app_nil_r. auto.
-  - set (fr := final (s :: strs)).
-    eexists _, _, _. split; [|split].
-    + unfold res_of. cbn [snd orb andb]. destruct (fr_res fr) as [[v|]|o]; cbn [apply_res deliver]; try reflexivity;
-        destruct (fr_tag fr); reflexivity.
-    + destruct (fr_call fr) as [[[pl c] a]|]; simpl.
-      * rewrite erase_app. reflexivity.
-      * rewrite app_nil_r. reflexivity.
-    + destruct (negb thr && fr_threaded fr); lia.
+  - cbn [snd fst]. unfold apply_res, deliver. destruct (k_on_empty K) as [[v|]|o];
+      try solve [exists log, thr, room, at_; (split; [reflexivity|]); rewrite app_nil_r; auto];
+      eexists log, thr, room, _; (split; [reflexivity|]); rewrite app_nil_r; auto.
+  - set (fr := final (s :: strs)). cbn [snd fst]. unfold res_of, apply_res, deliver.
+    assert (Hlog : erase (match fr_call fr with
+                          | Some (pl, c, a) => log ++ [Call pl c a (thr || fr_threaded fr) (fst at_) (merge_attrs (fst at_) (fr_flags fr))]
+                          | None => log end) =
+                   erase log ++ match fr_call fr with Some e => [e] | None => [] end).
+    { destruct (fr_call fr) as [[[pl c] a]|]; simpl; [rewrite erase_app; reflexivity|rewrite app_nil_r; reflexivity]. }
+    assert (Hroom : room <= (if negb thr && fr_threaded fr then k_budget K else room) /\
+                    (if negb thr && fr_threaded fr then k_budget K else room) <= k_budget K)
+      by (destruct (negb thr && fr_threaded fr); lia).
+    destruct (fr_res fr) as [[v|]|o]; cbn [orb andb]; try destruct (fr_tag fr);
+      try solve [eexists _, thr, _, at_; (split; [reflexivity|]); (split; [exact Hlog|exact Hroom])];
+      eexists _, _, _, _; (split; [reflexivity|]); (split; [exact Hlog|exact Hroom]).
 Qed.
 
-(* finalEval of the root proxy: the reply goes to the real Irc whatever the tag *)
-Lemma final_eval_root strs log thr room ign :
-  exists log' thr' room' ign',
-    final_eval strs [] log thr room ign = apply_res (snd (fin_spec false strs)) [] log' thr' room' ign' /\
+(* finalEval of the root proxy: the reply goes to the real Irc whatever the tag and the attributes *)
+Lemma final_eval_root strs at_ log thr room ign :
+  exists log' thr' room' ign' ra,
+    final_eval strs at_ [] log thr room ign = apply_res (snd (fin_spec false strs)) ra [] log' thr' room' ign' /\
     erase log' = erase log ++ fst (fin_spec false strs).
 Proof.
   unfold final_eval, fin_spec. destruct strs as [|s strs].
-  - exists log, thr, room, ign. simpl. rewrite app_nil_r. auto.
+  - eexists log, thr, room, ign, _. simpl. rewrite app_nil_r. auto.
   - set (fr := final (s :: strs)).
-    eexists _, _, _, _. split.
+    eexists _, _, _, _, _. split.
     + unfold res_of. cbn [snd andb]. destruct (fr_res fr) as [v|o]; reflexivity.
     + destruct (fr_call fr) as [[[pl c] a]|]; simpl.
       * rewrite erase_app. reflexivity.
@@ -122,36 +135,36 @@ Proof.
   destruct (spec_list_with _ r) as [lg [o|strs]]; reflexivity.
 Qed.
 
-Lemma eval_args_skip done s r d stack log thr room :
-  eval_args (MState (Frame done (AStr s :: r) d :: stack) log thr room false) =
-  eval_args (MState (Frame (done ++ [s]) r d :: stack) log thr room false).
+Lemma eval_args_skip done s r d at_ stack log thr room :
+  eval_args (MState (Frame done (AStr s :: r) d at_ :: stack) log thr room false) =
+  eval_args (MState (Frame (done ++ [s]) r d at_ :: stack) log thr room false).
 Proof. reflexivity. Qed.
 
 Lemma frame_run n :
   forall rest, subs rest < n ->
-  forall done d stack log thr room,
+  forall done d at_ stack log thr room,
     subs rest + pend stack <= room -> room <= k_budget K ->
-    exists k log' thr' room',
+    exists k log' thr' room' at',
       1 <= k /\ k <= 2 * subs rest + 1 /\
       erase log' = erase log ++ fst (spec_list d rest) /\
       room - subs rest <= room' /\ room' <= k_budget K /\
-      runm k (Running (MState (Frame done rest d :: stack) log thr room false)) =
+      runm k (Running (MState (Frame done rest d at_ :: stack) log thr room false)) =
         match snd (spec_list d rest) with
         | inl o => Done log' o
-        | inr strs => final_eval (done ++ strs) stack log' thr' room' false
+        | inr strs => final_eval (done ++ strs) at' stack log' thr' room' false
         end.
 Proof.
   induction n as [|n IHn]; [intros rest H; lia|].
-  induction rest as [|a r IHr]; intros Hlt done d stack log thr room Hroom Hb.
+  induction rest as [|a r IHr]; intros Hlt done d at_ stack log thr room Hroom Hb.
   - (* no argument left: finalEval *)
-    exists 1, log, thr, room. simpl. rewrite !app_nil_r.
+    exists 1, log, thr, room, at_. simpl. rewrite !app_nil_r.
     repeat split; try lia.
   - destruct a as [s|sub].
     + (* a string: counter += 1 *)
       rewrite subs_str in *.
-      destruct (IHr Hlt (done ++ [s]) d stack log thr room Hroom Hb)
-        as (k & log' & thr' & room' & Hk1 & Hk2 & Hlog & Hr1 & Hr2 & Hrun).
-      exists k, log', thr', room'. rewrite spec_list_str. simpl fst; simpl snd.
+      destruct (IHr Hlt (done ++ [s]) d at_ stack log thr room Hroom Hb)
+        as (k & log' & thr' & room' & at' & Hk1 & Hk2 & Hlog & Hr1 & Hr2 & Hrun).
+      exists k, log', thr', room', at'. rewrite spec_list_str. simpl fst; simpl snd.
       repeat split; try assumption.
       destruct k as [|k]; [lia|]. simpl. rewrite eval_args_skip.
       simpl in Hrun. rewrite Hrun.
@@ -159,45 +172,45 @@ Proof.
     + (* a bracket: spawn a child proxy *)
       rewrite subs_sub in *.
       rewrite spec_list_sub.
-      assert (Hstep : forall k, runm (S k) (Running (MState (Frame done (ASub sub :: r) d :: stack) log thr room false)) =
-                     runm k (construct K (Frame done (ASub sub :: r) d :: stack) log thr room false sub (S d))) by reflexivity.
+      assert (Hstep : forall k, runm (S k) (Running (MState (Frame done (ASub sub :: r) d at_ :: stack) log thr room false)) =
+                     runm k (construct K (Frame done (ASub sub :: r) d at_ :: stack) log thr room false sub (S d))) by reflexivity.
       unfold construct in Hstep.
       destruct (too_deep K (S d)) eqn:Hdeep.
-      { exists 1, log, thr, room. unfold Model.finish. rewrite Hdeep. simpl fst; simpl snd.
+      { exists 1, log, thr, room, at_. unfold Model.finish. rewrite Hdeep. simpl fst; simpl snd.
         rewrite app_nil_r. repeat split; try lia. rewrite Hstep. reflexivity. }
       destruct room as [|room0]; [lia|].
       destruct sub as [|a0 sub0].
-      { exists 1, log, thr, (S room0). unfold Model.finish. rewrite Hdeep. simpl fst; simpl snd.
+      { exists 1, log, thr, (S room0), at_. unfold Model.finish. rewrite Hdeep. simpl fst; simpl snd.
         rewrite app_nil_r. repeat split; try lia. rewrite Hstep. reflexivity. }
       set (sub := a0 :: sub0) in *.
       assert (Hne : sub <> []) by (unfold sub; discriminate).
-      set (parent := Frame done (ASub sub :: r) d) in *.
+      set (parent := Frame done (ASub sub :: r) d at_) in *.
       assert (Hpend : pend (parent :: stack) = subs r + pend stack) by reflexivity.
-      destruct (IHn sub ltac:(lia) [] (S d) (parent :: stack) log thr room0 ltac:(rewrite Hpend; lia) ltac:(lia))
-        as (k1 & log1 & thr1 & room1 & Hk1a & Hk1b & Hlog1 & Hr1a & Hr1b & Hrun1).
+      destruct (IHn sub ltac:(lia) [] (S d) (no_flags, no_flags) (parent :: stack) log thr room0 ltac:(rewrite Hpend; lia) ltac:(lia))
+        as (k1 & log1 & thr1 & room1 & at1 & Hk1a & Hk1b & Hlog1 & Hr1a & Hr1b & Hrun1).
       destruct (spec_list (S d) sub) as [lg [o|strs]] eqn:Hsp; simpl fst in *; simpl snd in *.
       * (* the child's evaluation stopped *)
         rewrite (finish_inl _ _ _ _ _ Hdeep Hne).
-        exists (S k1), log1, thr1, room1. simpl fst; simpl snd.
+        exists (S k1), log1, thr1, room1, at_. simpl fst; simpl snd.
         repeat split; try lia; try assumption.
         rewrite Hstep. exact Hrun1.
       * (* the child's arguments are all strings: its finalEval *)
         rewrite (finish_inr _ _ _ _ _ Hdeep Hne).
         simpl app in Hrun1. cbv iota beta in Hrun1.
-        destruct (final_eval_spec strs parent stack log1 thr1 room1 Hr1b)
-          as (log2 & thr2 & room2 & Hfe & Hlog2 & Hr2a & Hr2b).
+        destruct (final_eval_spec strs at1 parent stack log1 thr1 room1 Hr1b)
+          as (log2 & thr2 & room2 & at2 & Hfe & Hlog2 & Hr2a & Hr2b).
         rewrite Hfe in Hrun1.
         destruct (snd (fin_spec true strs)) as [v|o] eqn:Hres.
         -- (* reply / noReply: the parent resumes *)
            simpl in Hrun1.
            set (rest' := match v with Some s => AStr s :: r | None => r end).
            assert (Hsr : subs rest' = subs r) by (unfold rest'; destruct v; reflexivity).
-           assert (Hrun1' : runm k1 (Running (MState (Frame [] sub (S d) :: parent :: stack) log thr room0 false)) =
-                            Running (MState (Frame done rest' d :: stack) log2 thr2 room2 false)).
+           assert (Hrun1' : runm k1 (Running (MState (Frame [] sub (S d) (no_flags, no_flags) :: parent :: stack) log thr room0 false)) =
+                            Running (MState (Frame done rest' d at2 :: stack) log2 thr2 room2 false)).
            { rewrite Hrun1. unfold rest'. destruct v; reflexivity. }
-           destruct (IHn rest' ltac:(lia) done d stack log2 thr2 room2 ltac:(lia) Hr2b)
-             as (k2 & log3 & thr3 & room3 & Hk2a & Hk2b & Hlog3 & Hr3a & Hr3b & Hrun2).
-           exists (S (k1 + k2)), log3, thr3, room3.
+           destruct (IHn rest' ltac:(lia) done d at2 stack log2 thr2 room2 ltac:(lia) Hr2b)
+             as (k2 & log3 & thr3 & room3 & at3 & Hk2a & Hk2b & Hlog3 & Hr3a & Hr3b & Hrun2).
+           exists (S (k1 + k2)), log3, thr3, room3, at3.
            assert (Hspec' : spec_list d rest' =
                             (fst (spec_list d r),
                              match snd (spec_list d r) with inl o => inl o | inr strs0 => inr (opt_list v ++ strs0) end)).
@@ -209,7 +222,7 @@ Proof.
               destruct (snd (spec_list d r)); reflexivity.
         -- (* error / ambiguity / invalid / mute: evaluation ends *)
            simpl in Hrun1.
-           exists (S k1), log2, thr2, room2. simpl fst; simpl snd.
+           exists (S k1), log2, thr2, room2, at_. simpl fst; simpl snd.
            repeat split; try lia.
            ++ rewrite Hlog2, Hlog1. rewrite <- app_assoc. reflexivity.
            ++ rewrite Hstep. exact Hrun1.
@@ -231,8 +244,8 @@ Proof.
   { exists []. unfold Model.finish. rewrite Hd0. rewrite runm_done. split; reflexivity. }
   set (tokens := a :: toks) in *.
   assert (Hne : tokens <> []) by (unfold tokens; discriminate).
-  destruct (frame_run (S (subs tokens)) tokens ltac:(lia) [] 0 [] [] false room)
-    as (k & log1 & thr1 & room1 & Hk1 & Hk2 & Hlog1 & Hr1 & Hr2 & Hrun).
+  destruct (frame_run (S (subs tokens)) tokens ltac:(lia) [] 0 (no_flags, no_flags) [] [] false room)
+    as (k & log1 & thr1 & room1 & at1 & Hk1 & Hk2 & Hlog1 & Hr1 & Hr2 & Hrun).
   { unfold pend. simpl. lia. }
   { lia. }
   replace (2 * subs tokens + 2) with (k + (2 * subs tokens + 2 - k)) by lia.
@@ -241,7 +254,7 @@ Proof.
   destruct (spec_list 0 tokens) as [lg [o|strs]] eqn:Hsp; cbv beta iota; simpl fst in *; simpl snd in *.
   - rewrite (finish_inl _ _ _ _ _ Hd0 Hne). rewrite runm_done. exists log1. split; [reflexivity|exact Hlog1].
   - rewrite (finish_inr _ _ _ _ _ Hd0 Hne).
-    destruct (final_eval_root strs log1 thr1 room1 false) as (log2 & thr2 & room2 & ign2 & Hfe & Hlog2).
+    destruct (final_eval_root strs at1 log1 thr1 room1 false) as (log2 & thr2 & room2 & ign2 & ra2 & Hfe & Hlog2).
     change ([] ++ strs) with strs. rewrite Hfe. exists log2.
     destruct (snd (fin_spec false strs)) as [[s|]|o]; simpl; rewrite runm_done; (split; [reflexivity|]);
       rewrite Hlog2, Hlog1; reflexivity.
